@@ -238,6 +238,8 @@ OPS = [
   ("form_empty_parameter_name", "*", op_key("Potential-Form", lambda k, v: k.startswith("cf"), lambda k, rng: "cf(r, , rho)")),
   ("form_parameters_differ_only_in_case", "*", lambda it, info, rng: (lambda kv: (kv.__setitem__(0, "cf(r, A, a)"), kv.__setitem__(1, kv[1].replace("rho", "a")), it)[2])(entry(it, lambda k, v: k.startswith("cf"), "Potential-Form"))),
   ("form_parameter_repeated", "*", lambda it, info, rng: (lambda kv: (kv.__setitem__(0, "cf(r, A, A)"), kv.__setitem__(1, kv[1].replace("rho", "A")), it)[2])(entry(it, lambda k, v: k.startswith("cf"), "Potential-Form"))),
+  ("form_named_like_parameter_of_another_form", "*", lambda it, info, rng: (bm.sec(it, "Potential-Form")[1].append(["rho(r)", "2.0*r"]), it)[1]),
+  ("table_form_named_like_parameter_of_a_form", "*", lambda it, info, rng: (it.append(["Table-Form:rho", [["x", "0 1 2 3 4 10"], ["y", "1 2 3 4 5 6"]]]), it)[1]),
   ("form_label_not_identifier", "*", op_key("Potential-Form", lambda k, v: k.startswith("other"), lambda k, rng: "2other(r, k)")),
   ("formula_undefined_variable", "*", op_value("Potential-Form", lambda k, v: k.startswith("cf"), lambda v, rng: v.replace("rho", "sigma", 1))),
   ("formula_undefined_function", "*", op_value("Potential-Form", lambda k, v: k.startswith("cf"), lambda v, rng: v.replace("other(", "another("))),
